@@ -29,11 +29,25 @@ class TLCResult:
         self._parse()
 
     def _parse(self):
+        pending = None
         for line in self.out.splitlines():
-            if line.startswith("<<\""):
-                t = parse_tla_tuple(line)
-                if t is not None:
-                    self.tuples.append(t)
+            # TLC's pretty printer wraps long tuples over several lines: glue them back together
+            if pending is not None:
+                pending += " " + line.strip()
+                if line.rstrip().endswith(">>"):
+                    t = parse_tla_tuple(pending)
+                    if t is not None:
+                        self.tuples.append(t)
+                    pending = None
+                continue
+            if line.startswith("<<\"") or line.startswith("<< \""):
+                if line.rstrip().endswith(">>"):
+                    t = parse_tla_tuple(line)
+                    if t is not None:
+                        self.tuples.append(t)
+                else:
+                    pending = line.rstrip()
+                continue
             m = re.match(r"(\d+) states generated, (\d+) distinct states found", line)
             if m:
                 self.generated, self.distinct = int(m.group(1)), int(m.group(2))
